@@ -513,6 +513,7 @@ func (s *Server) handleConnReceiver(module *Module, crd *rsyncwire.CountingReade
 			return err
 		}
 		s.logger.Printf("exclusion list read (entries: %d)", len(exclusionList.Filters))
+		rt.Protected = exclusionList.Excludes
 	}
 
 	// receive file list
